@@ -3,7 +3,7 @@
    Model: Cluster/Syncer.v (server/cluster/state.go, server/gossip/syncer.go) fed by the events of Gossip/Apply.v. *)
 From Coq Require Import List String NArith ZArith Bool.
 From Piko Require Import Base.Maps Base.Strs Gossip.Types Gossip.Local Gossip.Apply Cluster.Syncer.
-From Piko Require Import GossipP.LocalP GossipP.WatchP ClusterP.SyncerP ClusterP.FoldP.
+From Piko Require Import GossipP.LocalP GossipP.ApplyP GossipP.WatchP GossipP.MemberP ClusterP.SyncerP ClusterP.FoldP ClusterP.LinkP.
 Import ListNotations.
 Open Scope string_scope. Open Scope list_scope.
 
@@ -39,6 +39,20 @@ Proof. intros addr_of Hne evs s sh. exact (fold_rel addr_of Hne evs s sh). Qed.
 Theorem C04_fold_from_start :
   forall addr_of id proxy admin, rel addr_of (new_sstate id proxy admin) [] /\ pend_wf (new_sstate id proxy admin).
 Proof. exact rel_init. Qed.
+
+(* ... and the events the gossip receiver emits ARE well formed whenever the data is honest (key-consistent entries,
+   each owner's two immutable addresses, numeric endpoint counts - what Sync/onLocalEndpointUpdate publish, cf. C05):
+   for EVERY sequence of digests, deltas (truncated, duplicated, reordered, relayed), liveness evaluations and expiry
+   sweeps on an observer, feeding the emitted events to the syncer keeps the routing state in `rel` with the fold,
+   and the fold agrees with the observer's gossip state (C14) *)
+Theorem C04_syncer_follows_gossip :
+  forall (addr_of : string -> string * string) ops c sh s,
+  (forall id, fst (addr_of id) <> "" /\ snd (addr_of id) <> "") ->
+  LInvC c -> Forall (rop_honest addr_of) ops -> agree sh c -> rel addr_of s sh -> pend_wf s ->
+  let evs := snd (rrun c ops) in
+  rel addr_of (on_events s evs) (fold_events sh evs) /\ pend_wf (on_events s evs) /\
+  agree (fold_events sh evs) (fst (rrun c ops)) /\ LInvC (fst (rrun c ops)).
+Proof. intros addr_of ops c sh s. exact (syncer_follows_gossip addr_of ops c sh s). Qed.
 
 (* consequences for the table itself *)
 Theorem C04_routing_mirrors_visible :
@@ -95,6 +109,7 @@ Print Assumptions C04_lookup_sound.
 Print Assumptions C04_lookup_complete.
 Print Assumptions C04_fold.
 Print Assumptions C04_fold_from_start.
+Print Assumptions C04_syncer_follows_gossip.
 Print Assumptions C04_routing_mirrors_visible.
 Print Assumptions C04_routing_entries_sound.
 Print Assumptions C04_caught_up.
